@@ -263,6 +263,9 @@ def main(argv=None):
         "counters": merged.extra,
         "workers": nw,
     }
+    if getattr(mod, "BFS_STATS", None):
+        # model-side BFS of the states mode: states per level, merged (de-duplicated) transitions
+        cov["state_search"] = mod.BFS_STATS
     if capped:
         cov["wall_cap_s"] = cap
         cov["explanation"] = ("wall-clock cap hit: %d of %d cases executed; "
